@@ -247,6 +247,15 @@ pub fn check_c07(prop: &str, tier: &str) -> i32 {
                 }
             }
         }
+        // non-canonical (over-long) LEB128 encodings of every count / flag field
+        for f in w.fields.iter().filter(|f| f.leb) {
+            for n in [f.len + 1, f.len + 2, 9, 10] {
+                let mut m = s.bytes[..f.off].to_vec();
+                wire::leb_enc_padded(f.val, n, &mut m);
+                m.extend_from_slice(&s.bytes[f.off + f.len..]);
+                mutants.push(EncMutant { seed: i, what: format!("{} ({}) re-encoded as an over-long LEB128 of {n} bytes", f.kind, f.val), bytes: m });
+            }
+        }
         mutants.extend(structural_mutants(i, &w, Some(&twins[i])));
     }
     // cross-policy swaps
@@ -367,7 +376,7 @@ pub fn check_c07(prop: &str, tier: &str) -> i32 {
 
     run.set("evaluations", json!(mutants.len() as u64 + dem_cases));
     run.set("distinct_nontrivial", json!(decaps_rejected));
-    run.set("rule", json!("5 seed encapsulations (classic 1/2/3 targets, hybridized 1/2 targets): every byte x {8 bit flips, 0x00, 0xff} (thorough: all 255 values for encapsulations <= 400 B; quick: 2 flips per byte above 600 B), every truncation, one-byte extension; all 255 values of the first byte of every trap (alternative point encodings); every permutation / drop / duplication of items, ML-KEM ciphertexts, masked seeds and traps, flavour flips, and every swap of tag / traps / items / single components with an independent encapsulation of the same policy; each parsed mutant is decapsulated with 7 keys (authorised through each target, through an older revision, twin, unauthorised). PKE ciphertexts (0/1/16/17-byte plaintexts) and encrypted metadata: every bit, every truncation, swaps, changed authentication data. distinct_nontrivial = mutants that parse and are then refused by every key"));
+    run.set("rule", json!("5 seed encapsulations (classic 1/2/3 targets, hybridized 1/2 targets): every byte x {8 bit flips, 0x00, 0xff} (thorough: all 255 values for encapsulations <= 400 B; quick: 2 flips per byte above 600 B), every truncation, one-byte extension; all 255 values of the first byte of every trap (alternative point encodings); every count / flag field re-encoded as an over-long LEB128; every permutation / drop / duplication of items, ML-KEM ciphertexts, masked seeds and traps, flavour flips, and every swap of tag / traps / items / single components with an independent encapsulation of the same policy; each parsed mutant is decapsulated with 7 keys (authorised through each target, through an older revision, twin, unauthorised). PKE ciphertexts (0/1/16/17-byte plaintexts) and encrypted metadata: every bit, every truncation, swaps, changed authentication data. distinct_nontrivial = mutants that parse and are then refused by every key"));
     run.set("mutants", json!(mutants.len()));
     run.set("rejected_at_parse", json!(parse_rejected));
     run.set("parsed_then_refused_by_every_key", json!(decaps_rejected));
@@ -574,6 +583,23 @@ fn forgeries(keys: &[Issued], ki: usize, msk_rights: &[Vec<u8>], reframe_cap: us
             push("secrets", format!("chain {i} reversed"), u);
         }
     }
+    // chains without any secret: a right name split in two ((xy, C) -> (x, no secret), (y, C)) keeps
+    // the MAC input byte-identical; an empty chain under a fresh name changes it
+    for i in 0..n {
+        let name = &w.chains[i].0;
+        for cut in 1..name.len() {
+            let mut u = w.clone();
+            u.chains[i].0 = name[cut..].to_vec();
+            u.chains.insert(i, (name[..cut].to_vec(), vec![]));
+            push("empty-chain", format!("name of chain {i} split at byte {cut}: first part becomes a right with no secret"), u);
+        }
+        let mut u = w.clone();
+        u.chains.insert(i, (vec![0x7d], vec![]));
+        push("empty-chain", format!("a right with no secret inserted before chain {i}"), u);
+        let mut u = w.clone();
+        u.chains.insert(i + 1, (vec![], vec![]));
+        push("empty-chain", format!("an unnamed right with no secret inserted after chain {i}"), u);
+    }
     // exchange with another issued key
     for (oi, o) in keys.iter().enumerate() {
         if oi == ki {
@@ -721,6 +747,26 @@ pub fn check_c08(prop: &str, tier: &str) -> i32 {
         let allow = issued[ki].w.chains.iter().map(|c| c.1.len()).sum::<usize>() <= if thorough { 6 } else { 4 } && issued[ki].w.chains.iter().all(|c| c.1.iter().all(|k| k.dk.is_none()));
         all.extend(forgeries(&issued, ki, rights, if allow { cap } else { 0 }));
     }
+    // a key issued after the master key was saved, presented to the restored copy (valid
+    // signature, identifier never registered there)
+    {
+        let saved = ser(&b.msk);
+        let late = cc.generate_user_secret_key(&mut b.msk, &p("A::x && H::lo")).unwrap();
+        let mut restored = MasterSecretKey::deserialize(&saved).unwrap();
+        let before = ser(&restored);
+        for keep in [true, false] {
+            let mut c = late.clone();
+            match catch_unwind(AssertUnwindSafe(|| cc.refresh_usk(&mut restored, &mut c, keep))) {
+                Ok(Ok(())) => run.report(None, "C08.a", &format!("a key issued after the master key was saved is accepted by the restored master key (refresh keep={keep}): its identifier was never registered there"), json!({"engine": "forge", "class": "unknown-id"})),
+                Ok(Err(_)) => {
+                    if c != late || !msk_equal_canon(&before, &ser(&restored)) {
+                        run.report(None, "C08.b", "refusing a key with an unknown identifier modified the key or the master key", json!({"engine": "forge", "class": "unknown-id"}));
+                    }
+                }
+                Err(_) => run.report(None, "C08.a", "refresh of a key with an unknown identifier panicked", json!({"engine": "forge", "class": "unknown-id"})),
+            }
+        }
+    }
     // a key issued by another master key
     all.push(Forgery { key: small_keys, class: "foreign", what: "a key issued by another master key over the same structure".into(), bytes: ser(&foreign) });
 
@@ -749,7 +795,8 @@ pub fn check_c08(prop: &str, tier: &str) -> i32 {
         per_class.entry(f.class).or_default().1 += 1;
         // whatever produced it, a forgery whose MAC input is byte-identical to the issued key's
         // is a re-framing (the unframed-MAC finding); everything else must be refused
-        let same_mac_input = WUsk::decode(&f.bytes).map(|w| w.mac_stream() == k.w.mac_stream() && w.sig == k.w.sig).unwrap_or(false);
+        // (and every chain holds at least one secret, as in every key the library can parse today)
+        let same_mac_input = WUsk::decode(&f.bytes).map(|w| w.mac_stream() == k.w.mac_stream() && w.sig == k.w.sig && w.chains.iter().all(|c| !c.1.is_empty())).unwrap_or(false);
         if same_mac_input {
             same_mac += 1;
         }
@@ -789,7 +836,7 @@ pub fn check_c08(prop: &str, tier: &str) -> i32 {
     }
     run.set("evaluations", json!(all.len()));
     run.set("distinct_nontrivial", json!(refused / 2));
-    run.set("rule", json!("issued keys: 2-chain keys in every observed chain order, with 1/2/3 revisions; 4-chain classic key; 6-chain key with 3 hybridized rights; the same after a partial rekey (chains of different lengths); for each: every chain removed / duplicated / pair exchanged / renamed (to every other right of the master key, a fresh right, one byte appended / removed / altered), rights added; every secret dropped / duplicated / altered / moved to every position of every other chain / exchanged with every secret of every other chain, chains reversed; flavour of every secret flipped; id, signature and chains spliced with every other issued key; markers altered / exchanged / removed; signature stripped / truncated / every byte altered / zeroed; a key of another master key; and EVERY re-framing of the MAC input (same byte stream cut into different names and 32-byte secrets) for classic keys of <= 4 (thorough 6) secrets (capped at 20 000 / 200 000 per key). Each forgery that parses is passed to refresh_usk with both flags; master key and user key are compared before/after. distinct_nontrivial = forgeries that parse and are refused"));
+    run.set("rule", json!("issued keys: 2-chain keys in every observed chain order, with 1/2/3 revisions; 4-chain classic key; 6-chain key with 3 hybridized rights; the same after a partial rekey (chains of different lengths); for each: every chain removed / duplicated / pair exchanged / renamed (to every other right of the master key, a fresh right, one byte appended / removed / altered), rights added; every secret dropped / duplicated / altered / moved to every position of every other chain / exchanged with every secret of every other chain, chains reversed; flavour of every secret flipped; id, signature and chains spliced with every other issued key; markers altered / exchanged / removed; signature stripped / truncated / every byte altered / zeroed; a key of another master key; a key issued after the master key was saved, presented to the restored copy; right names split so that one part becomes a right without secret, rights without secret inserted; and EVERY re-framing of the MAC input (same byte stream cut into different names and 32-byte secrets) for classic keys of <= 4 (thorough 6) secrets (capped at 20 000 / 200 000 per key). Each forgery that parses is passed to refresh_usk with both flags; master key and user key are compared before/after. distinct_nontrivial = forgeries that parse and are refused"));
     run.set("forgeries", json!(all.len()));
     run.set("rejected_at_parse", json!(parse_rejected));
     run.set("identical_to_an_issued_key_skipped", json!(skipped));
